@@ -738,6 +738,9 @@ type c20Lock struct {
 	Rounds   int        `json:"rounds"`
 	Len      int        `json:"len"`
 	K        uint32     `json:"k"`
+	// Preset: every message a worker loads already contains the item (a peer re-sending its filter); a reader
+	// then has no moment at which the item may be absent, unless somebody unloads
+	Preset bool `json:"preset,omitempty"`
 }
 
 func evalC20Lock(c c20Lock, o *Obs) error {
@@ -765,6 +768,13 @@ func evalC20Lock(c c20Lock, o *Obs) error {
 	var round, arrived atomic.Int64
 	var stop atomic.Bool
 	msgs := make([]*wire.MsgFilterLoad, g) // the message worker i loaded in the current round (nil if it did not)
+	obs := make([]int8, g)                 // what worker i's IsLoaded / Matches call of the current round returned: 0 none, 1 true, 2 false
+	see := func(v bool) int8 {
+		if v {
+			return 1
+		}
+		return 2
+	}
 	panicCh := make(chan error, 16)
 	var wg sync.WaitGroup
 	for w := 0; w < g; w++ {
@@ -783,19 +793,24 @@ func evalC20Lock(c c20Lock, o *Obs) error {
 					}
 				}
 				msgs[w] = nil
+				obs[w] = 0
 				switch c.Patterns[w][int(r)%len(c.Patterns[w])] {
 				case "reload":
 					m := wire.NewMsgFilterLoad(make([]byte, c.Len), c.K, uint32(r), wire.BloomUpdateAll)
+					if c.Preset {
+						tmp := bloom.LoadFilter(m)
+						tmp.Add(item)
+					}
 					msgs[w] = m
 					f.Reload(m)
 				case "unload":
 					f.Unload()
 				case "isloaded":
-					f.IsLoaded()
+					obs[w] = see(f.IsLoaded())
 				case "add":
 					f.Add(item)
 				case "matches":
-					f.Matches(item)
+					obs[w] = see(f.Matches(item))
 				}
 				c20Progress.Add(1)
 				arrived.Add(1)
@@ -808,6 +823,7 @@ func evalC20Lock(c c20Lock, o *Obs) error {
 	budget := time.Duration(pick(1500, 5000)) * time.Millisecond
 	t0 := time.Now()
 	done := int64(0)
+	prevLoaded, prevHas := false, false // the quiet state the round starts from
 	for r := int64(1); r <= int64(c.Rounds); r++ {
 		if r%256 == 0 && os.Getenv("VERIF_REPLAY") == "" && time.Since(t0) > budget {
 			break
@@ -836,15 +852,39 @@ func evalC20Lock(c c20Lock, o *Obs) error {
 				r, c20RoundOps(c, r), loaded, msg == nil)
 			break
 		}
-		nReload, nUnload := 0, 0
+		nReload, nUnload, nAdd := 0, 0, 0
 		for w := 0; w < g; w++ {
 			switch c.Patterns[w][int(r)%len(c.Patterns[w])] {
 			case "reload":
 				nReload++
 			case "unload":
 				nUnload++
+			case "add":
+				nAdd++
 			}
 		}
+		has := f.Matches(item)
+		// what the readers of this round saw must be what some sequential order of the round's calls shows
+		for w := 0; w < g && failure == nil; w++ {
+			op := c.Patterns[w][int(r)%len(c.Patterns[w])]
+			switch {
+			case op == "isloaded" && prevLoaded && nUnload == 0 && obs[w] == 2:
+				failure = fmt.Errorf("round %d (%s) began with a filter loaded and nobody unloads, yet IsLoaded() returned false: in no sequential order of these calls is the filter ever unloaded", r, c20RoundOps(c, r))
+			case op == "isloaded" && !prevLoaded && nReload == 0 && obs[w] == 1:
+				failure = fmt.Errorf("round %d (%s) began with no filter loaded and nobody loads one, yet IsLoaded() returned true", r, c20RoundOps(c, r))
+			case op == "matches" && c.Preset && prevHas && nUnload == 0 && obs[w] == 2:
+				failure = fmt.Errorf("round %d (%s): the item was in the filter before the round and is in every message loaded during it, nobody unloads, yet Matches returned false", r, c20RoundOps(c, r))
+			case op == "matches" && !prevLoaded && nReload == 0 && obs[w] == 1:
+				failure = fmt.Errorf("round %d (%s) began with no filter loaded and nobody loads one, yet Matches returned true", r, c20RoundOps(c, r))
+			}
+		}
+		if failure == nil && prevLoaded && nUnload == 0 && nAdd > 0 && (nReload == 0 || c.Preset) && !has {
+			failure = fmt.Errorf("after round %d (%s) the item inserted in that round is not in the filter: an insertion was lost", r, c20RoundOps(c, r))
+		}
+		if failure != nil {
+			break
+		}
+		prevLoaded, prevHas = loaded, has
 		if nReload > 0 && nUnload == 0 {
 			mine := false
 			for _, m := range msgs {
@@ -885,7 +925,7 @@ func c20RoundOps(c c20Lock, r int64) string {
 
 var kC20Lock = register(&Kind[c20Lock]{Prop: "C20", Name: "lockstep", Eval: evalC20Lock,
 	Gen: func(t *rapid.T) c20Lock {
-		c := c20Lock{Rounds: pick(30000, 400000), Len: rapid.IntRange(1, 64).Draw(t, "len"), K: uint32(rapid.IntRange(1, 5).Draw(t, "k"))}
+		c := c20Lock{Rounds: pick(30000, 400000), Len: rapid.IntRange(1, 64).Draw(t, "len"), K: uint32(rapid.IntRange(1, 5).Draw(t, "k")), Preset: rapid.Bool().Draw(t, "preset")}
 		g := rapid.SampledFrom([]int{2, 2, 3, 4}).Draw(t, "g")
 		for w := 0; w < g; w++ {
 			var p []string
